@@ -160,9 +160,10 @@ Section Exec.
         | Some v => (inr (add_local en v), s)
         | None => (inl (DdsErr "NONE"), s)
         end
-      | Dds _ =>
-        (* dds.load: committed paths of the store, then the blob *)
-        match blookup p (s_paths s) with
+      | Dds requested =>
+        (* dds.load: a path produced by the running evaluation is read through requested_paths (its blob is
+           already stored, the path is committed only at the end); any other path through the committed paths *)
+        match (match blookup p requested with Some k => Some k | None => blookup p (s_paths s) end) with
         | None => (inl (DdsErr "NONE"), s)
         | Some key =>
           match blookup key (s_blobs s) with
@@ -257,7 +258,7 @@ Section Call.
     | ErrArg a => outcome_of_actx_err a
     | ErrHash r => dds_err_of_hres r
     | ErrAssertCtx => LowErr "AssertionError"
-    | ErrAssertDep _ => LowErr "AssertionError"
+    | ErrLoadBeforeStore _ => DdsErr "LOAD_BEFORE_STORE"
     | ErrEmpty => LowErr "model"
     end.
 
